@@ -160,8 +160,9 @@ dumper::dump_charp (std::ostream &os, char const *buf, size_t len, format fmt)
 	  {
 #define ESCAPE(L, E) case L: os << E; break
 
-	    ESCAPE (0, "\\0");
-	    ESCAPE ('"', "\\");
+	    ESCAPE (0, "\\x00");
+	    ESCAPE ('"', "\\\"");
+	    ESCAPE ('%', "%%");
 	    ESCAPE ('\\', "\\\\");
 	    ESCAPE ('\a', "\\a");
 	    ESCAPE ('\b', "\\b");
@@ -174,13 +175,15 @@ dumper::dump_charp (std::ostream &os, char const *buf, size_t len, format fmt)
 #undef ESCAPE
 
 	  default:
-	    if (isprint (buf[i]))
+	    if (isprint ((unsigned char) buf[i]))
 	      os << buf[i];
 	    else
 	      {
 		ios_flag_saver ifs {os};
+		char fill = os.fill ('0');
 		os << "\\x" << std::hex << std::setw (2)
 		   << (unsigned) (unsigned char) buf[i];
+		os.fill (fill);
 	      }
 	  }
       os << '"';
